@@ -1,0 +1,14 @@
+//go:build verif
+
+package loader
+
+// VerifHook, when set by a verification harness, receives one event per
+// instrumented step (and may block, acting as a scheduling gate). It is only
+// compiled in with the "verif" build tag.
+var VerifHook func(ev string, args ...interface{})
+
+func vhook(ev string, args ...interface{}) {
+	if h := VerifHook; h != nil {
+		h(ev, args...)
+	}
+}
